@@ -372,13 +372,22 @@ theorem OKo.setEdges {s : State} {dst : HeapId} {e : Nat} (n : Nat) (es : List N
 /-- kinds the cloner allocates: the kind of the original; a string array only by the repaired
     rule (the unrepaired shallow copy is excluded by `CloneCtx.noShallow`). -/
 def KindNew (fixed : Bool) (k : Kind) : Prop :=
-  k = .plain ∨ k = .cell ∨ (k = .shallow ∧ fixed = true)
+  k = .plain ∨ k = .cell ∨ (k = .shallow ∧ fixed = true) ∨ k = .aarr ∨ k = .uarr
 
 theorem KindNew.ne_thread {fixed : Bool} {k : Kind} (h : KindNew fixed k) : k ≠ .thread := by
-  rcases h with h | h | ⟨h, _⟩ <;> simp [h]
+  rcases h with h | h | ⟨h, _⟩ | h | h <;> simp [h]
 
 theorem KindNew.ne_code {fixed : Bool} {k : Kind} (h : KindNew fixed k) : k ≠ .code := by
-  rcases h with h | h | ⟨h, _⟩ <;> simp [h]
+  rcases h with h | h | ⟨h, _⟩ | h | h <;> simp [h]
+
+theorem KindNew.shallow_fixed {fixed : Bool} {k : Kind} (h : KindNew fixed k) (hk : k = .shallow) :
+    fixed = true := by
+  rcases h with h | h | ⟨_, h⟩ | h | h
+  · rw [h] at hk; cases hk
+  · rw [h] at hk; cases hk
+  · exact h
+  · rw [h] at hk; cases hk
+  · rw [h] at hk; cases hk
 
 /-- A finished copy: owned by `dst`, pointing into `dst` or `thr`, all out-edges OK. -/
 def Fin (fixed : Bool) (s : State) (dst thr : HeapId) (n : Nat) : Prop :=
@@ -402,11 +411,9 @@ structure CloneCtx (s0 : State) (dst : HeapId) (rgen : Option Nat) (fixed : Bool
     (Rel : Nat → Prop) : Prop where
   wf : WF s0
   live : ∀ v, Rel v → ∃ o, s0.obj v = some o
-  closed : ∀ v o, Rel v → s0.obj v = some o → shareable s0 rgen v = false → o.kind ≠ .thread →
-    ∀ e ∈ o.edges, Rel e
+  closed : ∀ v o, Rel v → s0.obj v = some o → o.kind ≠ .thread → ∀ e ∈ o.edges, Rel e
   share : ∀ v o, Rel v → s0.obj v = some o → shareable s0 rgen v = true → o.owner <+: dst
-  noShallow : ∀ v o, Rel v → s0.obj v = some o → shareable s0 rgen v = false →
-    o.kind = .shallow → fixed = true
+  noShallow : ∀ v o, Rel v → s0.obj v = some o → o.kind = .shallow → fixed = true
   code : ∀ v o, Rel v → s0.obj v = some o → o.kind = .code → o.owner <+: dst
 
 /-- Invariant of the cloner state. -/
@@ -555,30 +562,28 @@ theorem shareable_ext {s0 s : State} {rgen : Option Nat} {v : Nat} (hx : Ext s0 
 
 theorem cloneVal_post {s0 : State} {dst thr : HeapId} {rgen : Option Nat} {fixed : Bool}
     {Rel : Nat → Prop} (ctx : CloneCtx s0 dst rgen fixed Rel) :
-    ∀ (f : Nat) (c : Cl) (v : Nat) (c' : Cl) (r : Nat), CI s0 dst c → Rel v →
-      cloneVal dst thr rgen fixed f c v = some (c', r) → Post fixed s0 dst thr c c' r := by
+    ∀ (f : Nat) (ns : Bool) (c : Cl) (v : Nat) (c' : Cl) (r : Nat), CI s0 dst c → Rel v →
+      cloneVal dst thr rgen fixed f ns c v = some (c', r) → Post fixed s0 dst thr c c' r := by
   intro f
   induction f with
-  | zero => intro c v c' r _ _ h; simp [cloneVal] at h
+  | zero => intro ns c v c' r _ _ h; simp [cloneVal] at h
   | succ f ih =>
-    intro c v c' r hci hrel h
+    intro ns c v c' r hci hrel h
     obtain ⟨o, ho⟩ := ctx.live v hrel
     have hv : v < s0.next := ctx.wf.lt ho
     have hoc : c.s.obj v = some o := by rw [hci.ext.2 v hv]; exact ho
     have hsh := shareable_ext (rgen := rgen) hci.ext hv
     simp only [cloneVal] at h
-    by_cases hs : shareable s0 rgen v = true
+    by_cases hs : (!ns && shareable s0 rgen v) = true
     · rw [hsh, hs] at h
       simp only [if_true, Option.some.injEq, Prod.mk.injEq] at h
       obtain ⟨rfl, rfl⟩ := h
-      exact ⟨hci, Ext.refl _, ⟨o, hoc, ctx.share v o hrel ho hs⟩, fun n h1 h2 => by omega⟩
-    · have hs' : shareable s0 rgen v = false := by
-        cases hb : shareable s0 rgen v
-        · rfl
-        · exact absurd hb hs
-      rw [hsh, hs'] at h
-      simp only [Bool.false_eq_true, if_false, hoc] at h
-      have hedges : o.kind ≠ .thread → ∀ e ∈ o.edges, Rel e := ctx.closed v o hrel ho hs'
+      have hs2 : shareable s0 rgen v = true := by
+        simp only [Bool.and_eq_true] at hs; exact hs.2
+      exact ⟨hci, Ext.refl _, ⟨o, hoc, ctx.share v o hrel ho hs2⟩, fun n h1 h2 => by omega⟩
+    · rw [hsh] at h
+      simp only [hs, if_false, hoc] at h
+      have hedges : o.kind ≠ .thread → ∀ e ∈ o.edges, Rel e := ctx.closed v o hrel ho
       cases hk : o.kind with
       | udata => simp [hk] at h
       | thread => simp [hk] at h
@@ -588,30 +593,38 @@ theorem cloneVal_post {s0 : State} {dst thr : HeapId} {rgen : Option Nat} {fixed
         exact ⟨hci, Ext.refl _, ⟨o, hoc, ctx.code v o hrel ho hk⟩, fun n h1 h2 => by omega⟩
       | plain =>
         simp only [hk] at h
-        exact viaVisited_post _ ih hci (hedges (by simp [hk])) (Or.inl rfl) (Or.inl rfl) h
+        exact viaVisited_post _ (ih false) hci (hedges (by simp [hk])) (Or.inl rfl) (Or.inl rfl) h
+      | aarr =>
+        simp only [hk] at h
+        exact viaVisited_post _ (ih (!fixed)) hci (hedges (by simp [hk])) (Or.inl rfl)
+          (Or.inr (Or.inr (Or.inr (Or.inl rfl)))) h
+      | uarr =>
+        simp only [hk] at h
+        exact viaVisited_post _ (ih (!fixed)) hci (hedges (by simp [hk])) (Or.inl rfl)
+          (Or.inr (Or.inr (Or.inr (Or.inr rfl)))) h
       | shallow =>
-        have hfx := ctx.noShallow v o hrel ho hs' hk
+        have hfx := ctx.noShallow v o hrel ho hk
         subst hfx
         simp only [hk, if_true] at h
-        exact viaVisited_post _ ih hci (hedges (by simp [hk])) (Or.inl rfl)
-          (Or.inr (Or.inr ⟨rfl, rfl⟩)) h
+        exact viaVisited_post _ (ih false) hci (hedges (by simp [hk])) (Or.inl rfl)
+          (Or.inr (Or.inr (Or.inl ⟨rfl, rfl⟩))) h
       | cell =>
         simp only [hk] at h
         cases fixed with
         | true =>
           simp only [if_true] at h
-          exact viaVisited_post _ ih hci (hedges (by simp [hk])) (Or.inr ⟨rfl, rfl⟩)
+          exact viaVisited_post _ (ih false) hci (hedges (by simp [hk])) (Or.inr ⟨rfl, rfl⟩)
             (Or.inr (Or.inl rfl)) h
         | false =>
           simp only [Bool.false_eq_true, if_false] at h
           unfold cellCopy at h
-          cases hce : cloneEdges (cloneVal dst thr rgen false f) c o.edges with
+          cases hce : cloneEdges (cloneVal dst thr rgen false f false) c o.edges with
           | none => simp [hce] at h
           | some p2 =>
             obtain ⟨c2, es⟩ := p2
             simp only [hce, Option.some.injEq, Prod.mk.injEq] at h
             obtain ⟨rfl, rfl⟩ := h
-            have pl := cloneEdges_post _ ih o.edges c c2 es hci (hedges (by simp [hk])) hce
+            have pl := cloneEdges_post _ (ih false) o.edges c c2 es hci (hedges (by simp [hk])) hce
             have hx := Ext.push pl.ci.wf ⟨dst, thr, Kind.cell, es⟩
             refine ⟨⟨pl.ci.wf.push _, pl.ci.ext.trans hx, ?_⟩, pl.ext.trans hx, ?_, ?_⟩
             · intro v' n' hmem
@@ -636,14 +649,14 @@ theorem deepClone_post {s0 s' : State} {dst thr : HeapId} {rgen : Option Nat} {f
     (h : deepClone s0 dst thr rgen fixed v = some (s', r)) :
     WF s' ∧ Ext s0 s' ∧ OKo s' dst r ∧ ∀ n, s0.next ≤ n → n < s'.next → Fin fixed s' dst thr n := by
   unfold deepClone at h
-  cases hc : cloneVal dst thr rgen fixed (cloneFuel s0) ⟨s0, []⟩ v with
+  cases hc : cloneVal dst thr rgen fixed (cloneFuel s0) false ⟨s0, []⟩ v with
   | none => simp [hc] at h
   | some p =>
     obtain ⟨c, r'⟩ := p
     simp only [hc, Option.some.injEq, Prod.mk.injEq] at h
     obtain ⟨rfl, rfl⟩ := h
     have hci : CI s0 dst ⟨s0, []⟩ := ⟨ctx.wf, Ext.refl _, by intro v n h; simp at h⟩
-    have p := cloneVal_post (thr := thr) ctx _ _ _ _ _ hci hv hc
+    have p := cloneVal_post (thr := thr) ctx _ _ _ _ _ _ hci hv hc
     exact ⟨p.ci.wf, p.ext, p.ok, p.fin⟩
 
 /-- The cloner keeps the heap invariant (also when it clones into the global heap on behalf of a
@@ -685,7 +698,7 @@ theorem deepClone_homed {s0 s' : State} {dst : HeapId} {rgen : Option Nat} {fixe
 /-- Objects the cloner looks at: below `v0`, descending only through objects it copies. -/
 inductive CopyReach (s : State) (rgen : Option Nat) (v0 : Nat) : Nat → Prop
   | root : CopyReach s rgen v0 v0
-  | step {q p o} : CopyReach s rgen v0 q → s.obj q = some o → shareable s rgen q = false →
+  | step {q p o} : CopyReach s rgen v0 q → s.obj q = some o →
       o.kind ≠ .thread → p ∈ o.edges → CopyReach s rgen v0 p
 
 theorem copyReach_owner {s : State} {rgen : Option Nat} {v0 : Nat} {src : HeapId}
@@ -693,7 +706,7 @@ theorem copyReach_owner {s : State} {rgen : Option Nat} {v0 : Nat} {src : HeapId
     (hp : CopyReach s rgen v0 p) : ∀ op, s.obj p = some op → op.owner <+: src := by
   induction hp with
   | root => exact h0
-  | @step q p o _ ho _ hk he ih =>
+  | @step q p o _ ho hk he ih =>
     intro op hop
     have h1 := hinv q o p op ho he hop
     rw [hh q o ho hk] at h1
@@ -742,16 +755,16 @@ theorem cloneCtx_of_transfer {s : State} {sameVm fixed : Bool} {src dst : HeapId
   · intro v hv
     cases hv with
     | root => exact hlive
-    | step _ ho _ _ he => exact hnd _ _ ho _ he
-  · intro v o hv ho hs hk e he
-    exact CopyReach.step hv ho hs hk he
+    | step _ ho _ he => exact hnd _ _ ho _ he
+  · intro v o hv ho hk e he
+    exact CopyReach.step hv ho hk he
   · intro v o hv ho hs
     rcases rgenFor_cases (sameVm := sameVm) (src := src) (dst := dst) with ⟨hr, hcs⟩ | hr
     · rw [hr] at hv hs
       exact shortcut_sound' hinv hh h0 hcs hv ho hs
     · rw [hr] at hs
       unfold shareable at hs; simp [ho] at hs
-  · intro v o hv ho _ hk
+  · intro v o hv ho hk
     exact hns v o hv ho hk
 
 /-! ### Rooting the copy; the transfer as a whole -/
